@@ -292,6 +292,54 @@ func init() {
 	register(&propertySpec{
 		ID:      "C08",
 		Explain: "Static pairing / ordering / provenance rules for deleteWith cascades: the removal primitive always cascades, the cascade runs after the id left the map (termination), dependents come from the re-matching search, every removal from memory is paired with the storage removal, and property / rule wrappers carry deleteWith. Does not decide that exactly the dependents are found (that relies on matching and on the term index).",
-		Rules:   []ruleFn{ruleCascade, ruleStoreAck, ruleDeleteWithProvenance},
+		Rules:   []ruleFn{ruleCascade, ruleStoreAck, ruleDeleteWithProvenance, ruleCascErr, ruleLoopExhaust("C08")},
 	})
+}
+
+// CASC-ERR: a dependent that could not be removed fails the removal that started the cascade.
+func ruleCascErr(w *World, r *Report) {
+	r.Rule("CASC-ERR", "error discipline of the cascade: inside the functions of a State implementation that the removal entry points reach (Rem, rem, deleteDependencies and what they call on the same type), the error of every storage mutation, and of every function that can return one, reaches the caller's error result on every path on which it is non-nil (ERRFLOW; purge-helper errors are cut off as in STORE-ERR): a cascade that stops at a dependent it could not remove must not report success, or the survivor and everything hanging off it reappear after a reload and nobody retries", 4)
+	a := newLocAnchors(w)
+	purge := purgeHelpers(w)
+	isSrc := func(c *ssa.CallCommon) (string, bool) {
+		d, ok := isStorageCall(w, c)
+		if !ok || !storageMutatorNames[calleeObj(c).Name()] {
+			return "", false
+		}
+		return d, true
+	}
+	cut := newErrSourcesCut(w, isSrc, purge)
+	// the removal layer of each state type
+	layer := map[*ssa.Function]bool{}
+	var work []*ssa.Function
+	for n := range a.stateImp {
+		for _, m := range w.MethodsOf(n) {
+			if m.Name() == "Rem" || m.Name() == "rem" || m.Name() == "deleteDependencies" {
+				work = append(work, m)
+			}
+		}
+	}
+	for len(work) > 0 {
+		f := work[len(work)-1]
+		work = work[:len(work)-1]
+		if layer[f] || purge[f] {
+			continue
+		}
+		layer[f] = true
+		owner, _ := stateOwnerOf(a, f)
+		withAnon(f, func(g *ssa.Function) {
+			layer[g] = true
+			allInstrs(g, func(in ssa.Instruction) {
+				if c := callOf(in); c != nil {
+					if callee := c.StaticCallee(); callee != nil {
+						if o2, ok := stateOwnerOf(a, callee); ok && o2 == owner {
+							work = append(work, callee)
+						}
+					}
+				}
+			})
+		})
+	}
+	scope := func(fn *ssa.Function) bool { return layer[fn] }
+	runErrFlow(w, r, "CASC-ERR", cut, scope, storeErrExemptions, errflowCfg{handler: defaultErrHandlers, allowClassify: true, successOnly: true})
 }
